@@ -1,5 +1,6 @@
 (* C14 driver.  One s-expression per line:
      (env KNOWN RANGES PLURALS LOADABLE)   set the environment            -> (ok)
+     (fixed F1 F2)                          select the repairs (0|1 each)  -> (ok)   default: both
      (base SCHEMA)                          set the base schema            -> (ok)
      (check EDIT ...)                       base with the edits applied    -> result
      (full SCHEMA)                          check a schema given in full   -> result
@@ -49,6 +50,7 @@ let res_sx (r : issue list res) : sx = match r with
 
 let cur_env : env ref = ref { env_known = []; env_ranges = []; env_plural = []; env_loadable = [] }
 let cur_base : rschema option ref = ref None
+let cur_fx : fixes ref = ref fixed_all
 
 let set_nth l i v = List.mapi (fun j x -> if j = i then v else x) l
 let ins_nth l i v =
@@ -88,9 +90,9 @@ let run (s : rschema) : sx =
   incr counter;
   let both = match load !cur_env s with
     | Exn e -> (Exn e, Exn e)
-    | Ok l -> (check_loaded !cur_env true l, check_loaded !cur_env false l) in
+    | Ok l -> (check_loaded !cur_fx !cur_env true l, check_loaded !cur_fx !cur_env false l) in
   if !counter mod 16 = 1 then begin
-    if check_compliance !cur_env true s <> fst both || check_compliance !cur_env false s <> snd both
+    if check_compliance !cur_fx !cur_env true s <> fst both || check_compliance !cur_fx !cur_env false s <> snd both
     then failwith "check_compliance-differs-from-load-then-check_loaded"
   end;
   L [res_sx (fst both); res_sx (snd both)]
@@ -109,6 +111,7 @@ let () = main_loop (fun x ->
       env_loadable = List.map (fun p -> match sx_list p with
           | [nm; sc] -> (sx_str nm, sx_schema sc) | _ -> failwith "loadable") (sx_list loadable) };
     L [A "ok"]
+  | [A "fixed"; f1; f2] -> cur_fx := { fx_skip_undeclared = sx_bool f1; fx_own_library = sx_bool f2 }; L [A "ok"]
   | [A "base"; sc] -> cur_base := Some (sx_schema sc); L [A "ok"]
   | A "check" :: edits ->
     (match !cur_base with
